@@ -40,6 +40,8 @@ const (
 	priorAbsent = iota
 	priorSame
 	priorDifferent
+	priorBlocked // a directory sits where the file should go: the write must fail
+	priorStates
 )
 
 func verifC17Translate() {
@@ -51,6 +53,7 @@ func verifC17Translate() {
 	var expect [][]byte
 	used := make([]bool, len(verifPkgPaths))
 	anyErr := false
+	anyBlocked := false
 	for i := 0; i < n; i++ {
 		k := verifChoose(len(verifPkgPaths))
 		verifAssume(!used[k]) // distinct packages have distinct paths
@@ -72,9 +75,17 @@ func verifC17Translate() {
 		failed = append(failed, fails)
 		want := coqFileContents(f)
 		expect = append(expect, want)
-		p := verifChoose(3)
+		p := verifChoose(priorStates)
 		prior = append(prior, p)
 		switch p {
+		case priorBlocked:
+			verifKernelMkdir("/out")
+			verifKernelMkdir("/out/example_com")
+			verifKernelMkdir("/out/example_com/b_c")
+			verifKernelMkdir(verifOutPaths[k])
+			if !(fails && !ignore) {
+				anyBlocked = true
+			}
 		case priorSame:
 			verifKernelMkdir("/out")
 			verifKernelMkdir("/out/example_com")
@@ -98,11 +109,14 @@ func verifC17Translate() {
 	}
 	verifResetOutput()
 	code := verifCatchExit(func() { translate([]string{"./..."}, "/out", ".", ignore, goose.TranslationConfig{}) })
-	verifAssert("exit/zero-iff-all-translated", (code == -1) == !anyErr)
+	verifAssert("exit/zero-iff-all-translated-and-written", (code == -1) == verifAnd(!anyErr, !anyBlocked))
 	verifAssert("exit/one-on-error", code == -1 || code == 1)
 	log := verifWriteLog()
 	for i := 0; i < n; i++ {
 		path := verifOutPaths[which[i]]
+		if prior[i] == priorBlocked || anyBlocked {
+			continue // a failed write ends the run (exit 1); later packages are not required to be written
+		}
 		got, ok := verifKernelFile(path)
 		wrote := verifContains(log, "writefile:"+path)
 		if failed[i] && !ignore {
